@@ -59,7 +59,10 @@ func (mach *unmarshalMachineStructAtlas) Step(driver *Unmarshaller, slab *unmars
 			child_rv = reflect.New(child_rt).Elem()
 		} else {
 			child_rt = mach.fieldEntry.Type
-			child_rv = mach.fieldEntry.ReflectRoute.TraverseToValue(mach.rv)
+			child_rv = mach.fieldEntry.ReflectRoute.TraverseToValueAllocating(mach.rv)
+			if !child_rv.IsValid() {
+				return true, fmt.Errorf("cannot reach field %q of %s through a nil embedded pointer", mach.fieldEntry.SerialName, mach.cfg.Type)
+			}
 		}
 		mach.index++
 		mach.value = false
